@@ -353,7 +353,7 @@ PROPS = {
         module="Hb.Props.C04",
         more_modules=["Hb.Props.C04SetLedger"],
         ties=[("scen", "panic-sat-nodrop", 6, 150), ("scen", "panic-sat-drop", 6, 150), ("scen", "panic-mixed", 8, 200),
-              ("scen", "panic-entry", 5, 120), ("scen", "entry", 150, 4000), ("scen", "panic-table", 4, 100), ("scen", "panic-set", 3, 80), ("t1", {})],
+              ("scen", "panic-entry", 5, 120), ("scen", "entry", 150, 4000), ("scen", "panic-table", 4, 100), ("scen", "panic-set", 3, 80), ("t1", {}), ("custom", extras_oracle)],
         backends=["sse2", "portable"],
         design="§7 C04, §10 F1",
         text="Lean theorems for every environment and every history with panics at ANY callback invocation: after every call, "
@@ -405,7 +405,7 @@ PROPS = {
     ),
     "C14": dict(
         module="Hb.Props.C14",
-        ties=[("scen", "entry-full", 250, 8000), ("scen", "entry", 250, 8000), ("scen", "entry-sat", 150, 5000), ("scen", "set", 150, 5000), ("scen", "panic-entry", 4, 100), ("t1", {})],
+        ties=[("scen", "entry-full", 250, 8000), ("scen", "entry", 250, 8000), ("scen", "entry-sat", 150, 5000), ("scen", "set", 150, 5000), ("scen", "panic-entry", 4, 100), ("t1", {}), ("custom", extras_oracle)],
         backends=["sse2", "portable"],
         design="§7 C14",
         text="Lean theorems for every state satisfying the representation invariant (in particular growth_left = 0, tombstone-"
@@ -424,7 +424,7 @@ PROPS = {
     ),
     "C15": dict(
         module="Hb.Props.C15",
-        ties=[("scen", "table", 300, 10000), ("scen", "entry", 200, 6000)],
+        ties=[("scen", "table", 300, 10000), ("scen", "entry", 200, 6000), ("custom", extras_oracle)],
         backends=["sse2", "portable"],
         design="§7 C15, §10 F2",
         text="Lean theorems for every environment (unlawful closures included): get_many_mut returns N results in request "
